@@ -172,9 +172,10 @@ def run(prop, rep, repo):
         else:
             if outcome == 'silent':
                 summary['benign_silent'] += 1
-            elif outcome == 'inconclusive' and name in KNOWN_UNSUPPORTED:
+            elif outcome == 'inconclusive' and name.split('/')[-1] in \
+                    KNOWN_UNSUPPORTED:
                 summary.setdefault('benign_unsupported', []).append(
-                    f'{name}: {KNOWN_UNSUPPORTED[name]}')
+                    f'{name}: {KNOWN_UNSUPPORTED[name.split("/")[-1]]}')
             else:
                 summary['benign_fired'].append(f'{name}: {outcome} {info}')
     rep.extra['selftest'] = summary
